@@ -180,7 +180,10 @@ Definition end_idx (ts : list tok) : N :=
 Definition node_of (k : N) (ch : list tree) : option tree :=
   if is_empty ch then None else Some (Node k ch).   (* position_from_segments panics on [] *)
 
-Definition root_parse (ts : list tok) (gm : gm_result) : option parse_result :=
+(** [ktail] is the kind of the node that takes the code left after the root match: [Unparsable]
+    in the repaired code (repo commit "fix: code left after the root match is kept in an
+    unparsable node ..."), a second [File] node before it ([root_parse_legacy], finding F1). *)
+Definition root_parse_gen (ktail : N) (ts : list tok) (gm : gm_result) : option parse_result :=
   let n := N.of_nat (length ts) in
   let si := start_idx ts in
   let ei := end_idx ts in
@@ -200,7 +203,7 @@ Definition root_parse (ts : list tok) (gm : gm_result) : option parse_result :=
                 let head := firstn (N.to_nat idx) unmatched in
                 let tail := skipn (N.to_nat idx) unmatched in
                 option_map (fun f => matched ++ map tok_tree head ++ [f])
-                           (node_of K_File (map tok_tree tail))
+                           (node_of ktail (map tok_tree tail))
               else Some matched
             in
             match content with
@@ -210,6 +213,18 @@ Definition root_parse (ts : list tok) (gm : gm_result) : option parse_result :=
         | _, _, _, _, _ => None
         end
     end.
+
+Definition root_parse := root_parse_gen K_Unparsable.
+Definition root_parse_legacy := root_parse_gen K_File.
+
+(** ids of the token leaves that are outside every [Unparsable] node *)
+Fixpoint outside (t : tree) : list N :=
+  match t with
+  | Tok i _ => [i]
+  | Meta _ _ => []
+  | Node k ch => if k =? K_Unparsable then [] else flat_map outside ch
+  end.
+Definition outside_l (l : list tree) : list N := flat_map outside l.
 
 (** --- well-formed match results (decidable; monitored on every recorded match) *)
 Definition span_t : Type := (N * N)%type.
